@@ -222,3 +222,16 @@ Proof.
         destruct (IH (next c g i) Hlt Hreq') as (t & Ht & Hs & Hr); [lia|].
         exists (S t). simpl. rewrite Eb. repeat split; try lia; auto.
 Qed.
+
+(* ownership moves only when the bus is not held, and only to an initiator that is requesting *)
+Lemma grant_moves_only_to_requesters c g i : (g < nintr c)%nat -> next c g i <> g ->
+  bus_busy c g i = false /\ req i (next c g i) = true /\ (next c g i < nintr c)%nat.
+Proof.
+  intros Hg Hne. destruct (bus_busy c g i) eqn:Eb.
+  - exfalso. apply Hne. apply no_preemption. exact Eb.
+  - split; [reflexivity|]. rewrite (next_owner_exact c g i Hg Eb) in *.
+    destruct (rr_next_spec (nintr c) (req i) g Hg) as (Hj & [H | [H | H]]).
+    + destruct H as (H & _). contradiction.
+    + destruct H as (_ & H & _). split; assumption.
+    + destruct H as (_ & H & _). split; assumption.
+Qed.
